@@ -91,20 +91,22 @@ impl Sanitizer {
 
     /// Sanitize to clean string
     fn sanitize_to_string(&self, input: &str) -> String {
-        let mut result = input.to_string();
+        // Replace first so that only ASCII is left to lowercase
+        let mut result = self.replace_non_alphanumeric(input);
 
         if self.lowercase {
             result = result.to_lowercase();
         }
-
-        result = self.replace_non_alphanumeric(&result);
 
         if !self.keep_zeros {
             result = self.remove_leading_zeros(&result);
         }
 
         if let Some(max_len) = self.max_length {
-            result.truncate(max_len);
+            // Cut on a character boundary (max_length counts characters)
+            if let Some((idx, _)) = result.char_indices().nth(max_len) {
+                result.truncate(idx);
+            }
         }
 
         if let Some(sep) = &self.separator {
@@ -112,6 +114,11 @@ impl Sanitizer {
                 .trim_start_matches(sep)
                 .trim_end_matches(sep)
                 .to_string();
+        }
+
+        // The cut may leave an all-digit segment with leading zeros (e.g. "00a" -> "00")
+        if self.max_length.is_some() && !self.keep_zeros {
+            result = self.remove_leading_zeros(&result);
         }
 
         result
@@ -145,10 +152,11 @@ impl Sanitizer {
         };
 
         let mut result = String::new();
-        let mut last_was_sep = false;
+        // Start as if a separator was just written so that no leading separator is produced
+        let mut last_was_sep = true;
 
         for ch in input.chars() {
-            if ch.is_alphanumeric() {
+            if ch.is_ascii_alphanumeric() {
                 result.push(ch);
                 last_was_sep = false;
             } else if !last_was_sep {
